@@ -62,6 +62,8 @@ pub struct Faults {
     pub down_at_rpc: Option<u64>,
     /// Go down when the n-th block-source call is issued.
     pub down_at_bs: Option<u64>,
+    /// Which class of transport error the current outage produces (see `transport_error`).
+    pub flavour: u8,
     /// Fail the n-th `get_block` call (1-based, counted since the last `arm_fetch_fault`).
     pub fetch_fault: Option<(u64, FetchFault)>,
     pub fetch_calls: u64,
@@ -554,12 +556,14 @@ impl NodeState {
             if self.faults.down_at_rpc == Some(self.rpc_count) {
                 self.faults.down = true;
                 self.faults.down_at_rpc = None;
+                self.faults.flavour = (self.rpc_count % 5) as u8;
             }
         } else {
             self.bs_count += 1;
             if self.faults.down_at_bs == Some(self.bs_count) {
                 self.faults.down = true;
                 self.faults.down_at_bs = None;
+                self.faults.flavour = (self.bs_count % 5) as u8;
             }
         }
         if self.faults.down {
@@ -655,6 +659,20 @@ pub struct NodeTransport {
     node: SimNode,
 }
 
+/// The transport error of an outage, in the classes the real transport (`jsonrpc::simple_http`) produces. The class is
+/// fixed for the whole outage (drawn from the number of the call at which it started).
+fn transport_error(flavour: u8) -> jsonrpc::Error {
+    use jsonrpc::simple_http::Error as H;
+    let e: Box<dyn std::error::Error + Send + Sync> = match flavour % 5 {
+        0 => Box::new(H::SocketError(std::io::Error::new(std::io::ErrorKind::ConnectionRefused, "connection refused (simulated)"))),
+        1 => Box::new(H::HttpErrorCode(503)),
+        2 => Box::new(H::SocketError(std::io::Error::new(std::io::ErrorKind::TimedOut, "timed out (simulated)"))),
+        3 => Box::new(H::HttpErrorCode(502)),
+        _ => Box::new(TransportDown),
+    };
+    jsonrpc::Error::Transport(e)
+}
+
 #[derive(Debug)]
 struct TransportDown;
 impl std::fmt::Display for TransportDown {
@@ -725,7 +743,7 @@ impl jsonrpc::client::Transport for NodeTransport {
                                     _ => "error",
                                 },
                             )),
-                            Verdict::Transport => Err(jsonrpc::Error::Transport(Box::new(TransportDown))),
+                            Verdict::Transport => Err(transport_error(st.faults.flavour)),
                             Verdict::Garbage => Err(jsonrpc::Error::Json(
                                 serde_json::from_str::<serde_json::Value>("<html>").unwrap_err(),
                             )),
@@ -747,7 +765,7 @@ impl jsonrpc::client::Transport for NodeTransport {
                                 txid: Some(txid),
                                 verdict: Verdict::Transport,
                             });
-                            Err(jsonrpc::Error::Transport(Box::new(TransportDown)))
+                            Err(transport_error(st.faults.flavour))
                         } else {
                             match st.get_raw(&txid) {
                                 Ok((tx, bh)) => {
@@ -789,14 +807,14 @@ impl jsonrpc::client::Transport for NodeTransport {
             }
             "getblockcount" => {
                 if !reachable {
-                    Err(jsonrpc::Error::Transport(Box::new(TransportDown)))
+                    Err(transport_error(st.faults.flavour))
                 } else {
                     Ok(ok(serde_json::json!(st.height())))
                 }
             }
             other => {
                 if !reachable {
-                    Err(jsonrpc::Error::Transport(Box::new(TransportDown)))
+                    Err(transport_error(st.faults.flavour))
                 } else {
                     Ok(err(-32601, &format!("Method not found: {other}")))
                 }
